@@ -1,4 +1,6 @@
 import GoflowModel.Excellent.LegacyTable
+import GoflowModel.Excellent.LegacyRefs
+import GoflowModel.Gen.LegacyRefs
 import GoflowModel.Driver.Util
 /-
   legmigf <prefix form>  →  ok <hex of the migrated expression's text> | err
@@ -7,6 +9,7 @@ prefix form, comma separated:
   bin:<EXPONENT|TIMES|DIVIDE|LT|LTE|GT|GTE|EQ|NEQ|AMPERSAND|PLUS|MINUS>
   ar:<dtn|dn0|dn1|dtt|rt|fb>:<p|m>          `+`/`-` in the form the type inference picked
   fn:<hex lower-cased legacy name>:<n>      followed by n parameters; migrated through the table
+  legref <0|1 raw dates> <hex reference>    →  ok <hex of the migrated reference>
 `err` when the expression is outside what the Go code accepts (`LWF`): a non-canonical number, a
 call with a number of parameters its migrator refuses.
 -/
@@ -85,6 +88,12 @@ def handle : List String → Option String
     match readL (2 * ts.length + 4) ts with
     | some (l, []) => if lwfB l then some ("ok " ++ encL (render (migF l))) else some "err"
     | _ => some "err"
+  | ["legref", raw, h] => do
+    -- a lower-cased legacy context reference → its migrated text (MigrateContextReference)
+    let p ← decL h
+    let segs := ((String.ofList p).splitOn ".").map String.toList
+    let schemes := Gen.LegacyRefs.schemes.map String.toList
+    some ("ok " ++ encL (render (LegacyRefs.migRef schemes (raw == "1") segs)))
   | _ => none
 
 end GoflowModel.Driver.LegacyFull
